@@ -18,6 +18,8 @@ def check(chk, thorough=False):
     chk.run('C05.b', 'R-GUARD', 'payload ranges tile from 0 by the budget: slice [off, off+size), advance by the same size, size > 0 guaranteed before slicing', lambda ob: c05b(tree, ob), floor=2)
     chk.run('C05.c', 'R-FLOW', 'each fragment: copy of the primary with the fragment flag, its own offset, the original payload length; blocks copied iff first / replicate / payload', lambda ob: c05c(tree, ob), floor=5)
     chk.run('C05.d', 'R-LINEAR', 'data budget = mtu - N + 1 - h with N measured on the filled, empty-payload fragment and h the head size of the total payload length', lambda ob: c05d(tree, ob), floor=3)
+    chk.run('C05.j', 'R-FLOW', 'every fragment handed to a convergence-layer adaptor reaches the CL or waits for its session: none is dropped on the way (= C11.h)', lambda ob: __import__('sa.props.c11', fromlist=['c11h']).c11h(tree, ob), floor=6)
+    chk.run('C05.k', 'R-FLOW', 'the route whose MTU sizes the fragments is the route they are sent on: one routing decision per bundle, the first matching transmit route in table order, kept in ctr.route', lambda ob: c05k(tree, ob), floor=3)
     chk.run('C05.e', 'R-SCHEMA', 'security TX steps run before fragment creation; fragments re-enter through Agent.send_bundle', lambda ob: c05e(tree, ob), floor=3)
     chk.run('C05.f', 'R-NOPATH', 'when fragmentation is impossible nothing altered is transmitted: no mutation of the original before a raise; a failed TX step never reaches the sender', lambda ob: c05f(tree, ob), floor=2)
     chk.run('C05.h', 'R-ORDER', 'sizes seen by the TX steps include the CRC fields: the bundle is filled before the TX chain runs, and block filling always reaches the CRC placeholder step', lambda ob: c05h(tree, ob), floor=3)
@@ -224,7 +226,29 @@ class _Mute:
         pass
 
 
+def _size_measure(tree, ob):
+    ''' every size in the fragmentation arithmetic is len(<bundle>): the length of the encoding that is sent.  scapy gives
+    len(pkt) == len(bytes(pkt)); a __len__ of the repository's own in the bundle classes replaces that measure (and one
+    that forgets an octet -- the break of the indefinite array -- lets fragments out one octet over the MTU). '''
+    n = 0
+    for (rel, cname) in (('bp/encoding/bundle.py', 'Bundle'), ('scapy_cbor/packets.py', 'CborArray'), ('scapy_cbor/packets.py', 'AbstractCborStruct')):
+        cls = tree.klass(rel, cname)
+        defs = [m for m in cls.body if isinstance(m, ast.FunctionDef) and m.name == '__len__']
+        n += 1
+        if not defs:
+            ob.site(rel, cls, cname + ': size is len(bytes(...)) (inherited)')
+            continue
+        rets = [r for r in walk_local(defs[0]) if isinstance(r, ast.Return)]
+        if len(rets) == 1 and rets[0].value is not None and src(rets[0].value) in ('len(bytes(self))', 'len(self.__bytes__())'):
+            ob.site(rel, defs[0], cname + '.__len__ is the length of the encoding')
+        else:
+            ob.violate(rel, cname + '.__len__', src(rets[0])[:70] if rets else '__len__', 'the size of a bundle is computed by other means than encoding it: wherever the two differ (an octet of framing '
+                       'left out) a bundle one octet over the MTU is sent whole and fragments are cut one octet too long', defs[0])
+    return n
+
+
 def c05d(tree, ob):
+    _size_measure(tree, ob)
     fv = FuncView(tree, FRAG, Q)
     loop = _loop(fv, ob)
     til = tiling(fv, loop, _Mute(), FRAG, 'fragment tiling')
@@ -439,3 +463,33 @@ def c05g(tree, ob):
                     ob.violate(rel, qual, src(d), 'the encoded block data is deleted but the parsed payload stays attached, so the data is regenerated on the next encode: '
                                'for a received bundle the "empty payload" fragment measures full size, the budget goes negative and fragmentation fails', d)
     ob.require(n >= 1, 'no delete of block data found')
+
+
+
+def c05k(tree, ob):
+    ''' fragments are cut for the MTU of ctr.route and come back through send_bundle() later, when routes may have been
+    appended (reverse routes of new sessions).  They stay within "the route MTU" only if the search stops at the first
+    match (a later, appended route must not win) and a container that has a route keeps it. '''
+    fv = FuncView(tree, AGENT, 'Agent._do_tx_step')
+    loops = [n for n in walk_local(fv.func) if isinstance(n, ast.For)]
+    loop = one(loops, 'route loop in _do_tx_step', ob)
+    if src(loop.iter) != 'self._config.tx_route_table':
+        ob.violate(AGENT, fv.qual, 'for item in ' + src(loop.iter), 'transmit routes are not consulted in table order', loop)
+    else:
+        ob.site(AGENT, loop, 'transmit routes consulted in stored order')
+    breaks = [n for n in walk_local(loop) if isinstance(n, ast.Break)]
+    stores = [n for n in walk_local(loop) if isinstance(n, ast.Assign) and isinstance(n.targets[0], ast.Name)]
+    hit = [b for b in breaks if fv.has(b, 'match is None', False) or fv.has(b, 'match', True)]
+    if not hit:
+        ob.violate(AGENT, fv.qual, 'for item in self._config.tx_route_table: (no break at the match)', 'the route search does not stop at the first match: the last matching route wins, so a route appended '
+                   'after the fragments were cut (with a smaller MTU) carries them', loop)
+    else:
+        ob.site(AGENT, hit[0], 'search stops at the first matching route')
+    # a routed container is not routed again: the decision is stored only where none was on record
+    sets = [n for n in walk_local(fv.func) if isinstance(n, ast.Assign) and any(src(t) == 'ctr.route' for t in n.targets)]
+    ob.require(sets, 'store of the routing decision')
+    for st in sets:
+        if fv.has(st, 'ctr.route', False) or fv.has(st, 'ctr.route is None', True):
+            ob.site(AGENT, st, 'a container that has a route keeps it')
+        else:
+            ob.violate(AGENT, fv.qual, src(st) + '  (also when ctr.route is set)', 'a container that already has a route is routed again: its fragments, cut for the first route, can leave on another one', st)
